@@ -15,19 +15,23 @@ theorem minTokenAllocation_eq : Gen.IBC.minTokenAllocation = GB.minTokenAllocati
 theorem maxGenesisChecksumLength_eq : Gen.IBC.maxGenesisChecksumLength = 64 := rfl
 theorem hubRecipient_eq : Gen.IBC.hubRecipient = "dym1mk7pw34ypusacm29m92zshgxee3yreums8avur" := rfl
 
-/-- M-LC `updateClient … .nested = ante nestedDisabled`: ibc `MsgUpdateClient` is refused inside wrappers … -/
-theorem nested_update_blocked : Gen.IBC.nestedBlocked = ["ibcclienttypes.MsgUpdateClient"] := rfl
-/-- … and that is the only message type refused there: M-LC `misbehaviour … .submitNested` is not stopped by it -/
-theorem nested_misbehaviour_not_blocked :
-    Gen.IBC.nestedBlocked.all (· != "ibcclienttypes.MsgSubmitMisbehaviour") = true ∧
-    Gen.IBC.alwaysBlocked.all (· != "ibcclienttypes.MsgSubmitMisbehaviour") = true := by decide
+/-- M-LC `updateClient … .nested` and `misbehaviour … .submitNested` are refused by the ante handler: both ibc
+    message types are refused inside wrappers -/
+theorem nested_blocked : Gen.IBC.nestedBlocked = ["ibcclienttypes.MsgUpdateClient", "ibcclienttypes.MsgSubmitMisbehaviour"] := rfl
 /-- `IBCMessagesDecorator` handles exactly these three message types, at top level only -/
 theorem ante_handled : Gen.IBC.anteHandled =
     ["ibcclienttypes.MsgSubmitMisbehaviour", "ibcclienttypes.MsgUpdateClient", "ibcchanneltypes.MsgChannelOpenAck"] := rfl
 theorem ante_top_level_only : Gen.IBC.anteHandlesNested = false := rfl
-/-- M-LC `checkList` ranges over the candidate's lists and compares no lengths, as `IsCanonicalClientParamsValid` does -/
-theorem params_loops_over_candidate :
-    Gen.IBC.paramsLoopsOver = ["got.ProofSpecs", "got.UpgradePath"] ∧ Gen.IBC.paramsComparesLengths = false := ⟨rfl, rfl⟩
+/-- M-LC `paramsCheck` compares the lengths of the candidate's lists before their elements, as
+    `IsCanonicalClientParamsValid` does -/
+theorem params_compares_lengths :
+    Gen.IBC.paramsLoopsOver = ["got.ProofSpecs", "got.UpgradePath"] ∧ Gen.IBC.paramsComparesLengths = true := ⟨rfl, rfl⟩
+/-- M-LC `firstConsHeight` is the numerically lowest height; `resolveFork` uses `nextSeqFor`; `handleUpdate` checks
+    `foreignSeq` and `Hdr.sole` -/
+theorem lightclient_shapes :
+    Gen.IBC.firstConsHeightNumeric = true ∧ Gen.IBC.resolveUsesNextSequencer = true ∧ Gen.IBC.updateChecksSequencerRollapp = true ∧
+    Gen.IBC.updateChecksValidatorSet = true :=
+  ⟨rfl, rfl, rfl, rfl⟩
 theorem expected_upgrade_path_length : Gen.IBC.expectedUpgradePath.length = LC.expPath.length := rfl
 
 end DymVerif.GenEq
